@@ -93,27 +93,44 @@ def label(forest, reps, rng, namer):
 
 
 def tree_text(t):
-    if t[0] == "L":
-        return "L%d.%d.%d.%d.%s" % (t[1], t[2], t[3], t[4], "-" if t[5] is None else t[5])
-    return "G%d.%d[%s]" % (t[1], t[2], ";".join(tree_text(c) for c in t[3]))
+    """iterative (chains are 10 000 deep)"""
+    out, stack = [], [t]
+    while stack:
+        x = stack.pop()
+        if isinstance(x, str):
+            out.append(x)
+        elif x[0] == "L":
+            out.append("L%d.%d.%d.%d.%s" % (x[1], x[2], x[3], x[4], "-" if x[5] is None else x[5]))
+        else:
+            out.append("G%d.%d[" % (x[1], x[2]))
+            stack.append("]")
+            for k, c in enumerate(reversed(x[3])):
+                stack.append(c)
+                if k != len(x[3]) - 1:
+                    stack.append(";")
+    return "".join(out)
 
 
 def flatten(t, out):
-    """elements as dicts (the generator's own flattening; cross-checked against the specification's)"""
-    if t[0] == "L":
-        out.append(dict(name=t[2], hastype=1, type=t[3], tlen=t[4], hasrep=1, rep=t[1], nc=0, logical=t[5]))
-    else:
-        out.append(dict(name=t[2], hastype=0, type=0, tlen=0, hasrep=1, rep=t[1], nc=len(t[3]), logical=None))
-        for c in t[3]:
-            flatten(c, out)
+    """elements as dicts in depth-first order (the generator's own flattening; cross-checked against the specification's)"""
+    stack = [t]
+    while stack:
+        x = stack.pop()
+        if x[0] == "L":
+            out.append(dict(name=x[2], hastype=1, type=x[3], tlen=x[4], hasrep=1, rep=x[1], nc=0, logical=x[5]))
+        else:
+            out.append(dict(name=x[2], hastype=0, type=0, tlen=0, hasrep=1, rep=x[1], nc=len(x[3]), logical=None))
+            stack.extend(reversed(x[3]))
 
 
 def leaves_of(forest, out):
-    for t in forest:
-        if t[0] == "L":
-            out.append(t)
+    stack = list(reversed(forest))
+    while stack:
+        x = stack.pop()
+        if x[0] == "L":
+            out.append(x)
         else:
-            leaves_of(t[3], out)
+            stack.extend(reversed(x[3]))
 
 
 def elems_text(els):
@@ -419,6 +436,7 @@ def run(tier):
     rep = Report(PID, tier)
     rng = random.Random(vlib.SEED * 7919 + 17)
     prelude(rep, PID)
+    sys.setrecursionlimit(200000)      # a translator imported by the prelude lowers it; the 9998-deep chain needs it
     rep.cov["trusted_base"] = vlib.TRUSTED_BASE_COMMON + [
         "checks/pq_min.py: the independent Thrift-compact / footer writer that turns element lists into files",
         "modelled, not verified: parse_schema_element / parse_logical_type (src/thrift/parquet_types.c) are exercised through the files but have no Gallina model here (C13 owns the Thrift layer); allocation failure in the builder (C19)",
@@ -481,6 +499,7 @@ def replay(path):
     if not case:
         print(json.dumps(j, indent=1)[:3000])
         return 1
+    sys.setrecursionlimit(200000)
     drv = build_driver("h_schema")
     run_ = build_runner("schema")
     try:
